@@ -266,6 +266,73 @@ fn main() {
             }
         }
     }
+    // ---- PRIMARY KEY columns of other types (outside the reference subset; the property's own oracle only):
+    // the key shortcut probes a hash map by representation, so literals that need a coercion to reach the
+    // stored form (0.1 against REAL, 'ab' against CHAR(5), 2.0 against SMALLINT ...) must select what SELECT selects
+    let ntyped = if args.thorough { 600 } else { 90 };
+    for k in 0..ntyped {
+        let mut r = Rng::new(args.seed, &format!("c09/typed/{}", k));
+        let (ty, vals, lits): (&str, Vec<&str>, Vec<&str>) = match k % 7 {
+            0 => ("REAL", vec!["0.1", "0.5", "1.5", "2.25", "3.0"], vec!["0.1", "0.5", "1.5", "3", "3.0", "2.25", "0.25"]),
+            1 => ("FLOAT", vec!["0.1", "0.7", "2.0"], vec!["0.1", "0.7", "2", "2.0", "0.3"]),
+            2 => ("CHAR(5)", vec!["'ab'", "'abc'", "'x'"], vec!["'ab'", "'ab   '", "'abc'", "'x'", "'zz'", "'abc  '"]),
+            3 => ("SMALLINT", vec!["1", "2", "3", "300"], vec!["1", "2.0", "300", "70000", "3"]),
+            4 => ("BIGINT", vec!["1", "2", "5000000000"], vec!["1", "5000000000", "2.0", "7"]),
+            5 => ("DOUBLE PRECISION", vec!["0.1", "1.5", "2.0"], vec!["0.1", "1.5", "2", "2.0", "0.30000000000000004"]),
+            _ => ("VARCHAR(10)", vec!["'a'", "'A'", "'b '"], vec!["'a'", "'A'", "'b'", "'b '", "'c'"]),
+        };
+        let mut db = Database::new();
+        sql::must(&mut db, &format!("CREATE TABLE tk (k {} PRIMARY KEY, v INTEGER)", ty));
+        for (i, v) in vals.iter().enumerate() {
+            sql::must(&mut db, &format!("INSERT INTO tk VALUES ({}, {})", v, i));
+        }
+        sum.count(&format!("typed-key:{}", ty));
+        for _ in 0..5 {
+            let lit = *r.pick(&lits);
+            let pred = if r.chance(1, 4) { format!("{} = k", lit) } else { format!("k = {}", lit) };
+            let del = r.chance(1, 2);
+            let stmt = if del { format!("DELETE FROM tk WHERE {}", pred) } else { format!("UPDATE tk SET v = v + 10 WHERE {}", pred) };
+            let this = id;
+            id += 1;
+            let pre = sql::exec(&mut db, "SELECT * FROM tk");
+            let sel = sql::exec(&mut db, &format!("SELECT * FROM tk WHERE {}", pred));
+            let out = sql::exec(&mut db, &stmt);
+            let post = sql::exec(&mut db, "SELECT * FROM tk");
+            sum.evaluations += 1;
+            let case = json!({"classes": Vec::<&str>::new(), "create": format!("CREATE TABLE tk (k {} PRIMARY KEY, v INTEGER)", ty), "values": vals, "sql": stmt, "select": format!("SELECT * FROM tk WHERE {}", pred),
+                "pre": format!("{:?}", pre.rows().map(|x| sql::canon_bag(x))), "selected": format!("{:?}", sel.rows().map(|x| sql::canon_bag(x))), "outcome": out.tag(), "post": format!("{:?}", post.rows().map(|x| sql::canon_bag(x)))});
+            log.log(this, case.clone());
+            match (pre.rows(), sel.rows(), &out, post.rows()) {
+                (Some(pre_r), Some(sel_r), Outcome::Count(n), Some(post_r)) => {
+                    let ok = if del {
+                        let mut want = sql::canon_bag(pre_r);
+                        for s2 in sql::canon_bag(sel_r) {
+                            if let Some(p2) = want.iter().position(|x| *x == s2) {
+                                want.remove(p2);
+                            }
+                        }
+                        let mut got = sql::canon_bag(post_r);
+                        want.sort();
+                        got.sort();
+                        *n == sel_r.len() && want == got
+                    } else {
+                        *n == sel_r.len() && post_r.len() == pre_r.len()
+                    };
+                    if !ok {
+                        sum.finding(if del { "delete-not-exact" } else { "update-not-exact" }, this, format!("{} on a {} key reports {} rows while SELECT with the same WHERE returns {}", if del { "DELETE" } else { "UPDATE" }, ty, n, sel_r.len()), case.clone());
+                    }
+                    if !sel_r.is_empty() {
+                        sum.nontrivial(&format!("typed|{}|{}", ty, stmt));
+                    }
+                }
+                (_, Some(_), Outcome::Err(..), _) | (_, None, Outcome::Count(_), _) => {
+                    sum.finding("dml-succeeds-select-fails", this, format!("statement and SELECT with the same WHERE differ in success: {} -> {}", stmt, out.tag()), case.clone());
+                }
+                (_, _, Outcome::Panic(m), _) => sum.finding("panic", this, format!("statement panicked: {}", m), case.clone()),
+                _ => {}
+            }
+        }
+    }
     // scripted: a WHERE clause that cannot be evaluated.  SELECT reports the error; DELETE keeps every
     // row and reports success (pinned by the repository's own test test_delete_column_not_found)
     {
